@@ -14,6 +14,21 @@ CHECKS = {
          "Complete enumeration of enable-list x disable-list (all lists of <=2 keys, flag absent, explicit empty) x enable-all over a key alphabet that realises all 32 combinations of the five deciding booleans for every checker, executed on the real initCheckers of cmd/go-critic and cmd/gocritic (driven in-process through an overlay-added RPC file that calls the unexported bind/parse/assign/init steps) and on the real analyzer filter (public Flags + Run); 8 probe checkers registered through the public AddChecker (one per tag set incl. security) observe constructor calls and diagnostic attribution; every (representative in quick, every in thorough) registered checker x 32 combinations on the full registry; the four real binaries with real flag parsing on a workspace (-v / -debug-init 'is enabled' lines, exit status).",
          "Oracle = the rule exactly as the property states it. Entries with surrounding blanks are outside the alphabet. The generated-documentation leg (default marks) is decided in C17.",
          "DESIGN.md section 3, C06"),
+ "C01": ("exploration",
+         "bounded-exhaustive enumeration of program families (full products of small alphabets; all 1-deviation mutants of the maintainers' examples) x all checkers, oracle: no panic / no hang",
+         "Every program of explicitly described finite families is generated, filtered through go/types, and analysed by all 107 checkers on long-lived instances under recover and a watchdog: shadow/arity product (name x declaration kind x signature x argument shape x statement context, ~280k candidates, ~100k well-typed), odd-syntax snippets alone and in all ordered pairs, all 1-deviation mutants of the 211 example files (28 operators quick, 45 thorough), comment alphabet^k in 7 positions, string-constant token strings reaching regexp/fmt/flag calls, and each checker parameter over a small value domain.",
+         "Decides the property only inside the enumerated scopes (small-scope hypothesis): go/types is the judge of 'compilable'. A hang needs three solo re-runs of 120 s to count.",
+         "DESIGN.md section 3, C01"),
+ "C07": ("exploration",
+         "bounded-exhaustive enumeration of program families x all checkers; every produced diagnostic checked against go/scanner token starts and message hygiene",
+         "Second oracle over the same exhaustive program enumeration as C01 (~1.3 million diagnostics per quick run): position valid, inside the analysed file, at the start of a token or comment as computed by go/scanner over the file bytes; fix range valid, non-inverted, same file; text non-empty and free of formatting-failure artefacts that do not occur in the source.",
+         "go/scanner is the reference for token starts; positions are taken unadjusted (no //line remapping).",
+         "DESIGN.md section 3, C07"),
+ "C20": ("exploration",
+         "bounded-exhaustive enumeration of shadowing programs with a metamorphic twin (same program, user declaration renamed): a diagnostic that exists only under the API spelling is reported on a namesake",
+         "Leg 1: full shadow family (34 qualified + 20 builtin subjects x 5 declaration kinds x 29 signatures x argument shapes x 27 contexts), go/types guarantees the subject identifier is a user declaration; each program with diagnostics is re-analysed with the declaration renamed to a same-length neutral identifier. Leg 2: every (example file, std import used only through functions): the import is replaced by a package-level variable with identical function signatures (so rule-based checkers see the same call shapes), plus neutral twin; a diagnostic present in original and namesake variant but absent in the neutral twin is API-specific and wrongly issued.",
+         "Checkers whose documented subject is shadowing itself (builtinShadow, builtinShadowDecl, importShadow) are exempt. Known findings are keyed checker|subject.",
+         "DESIGN.md section 3, C20"),
 }
 
 PENDING = {
